@@ -278,17 +278,54 @@ func c16Locks(c *Ctx, d *driverModel) {
 		}
 	}
 	r.Check(atomicOK, "R16-locks", "the active flag is an atomic.Bool", c.pos(d.driverT.Obj().Pos()), "", "")
-	// closures capture only d, ctx, out, infinite
+	// what a goroutine started by the command loop shares with it must not be written once the
+	// goroutine exists: every captured variable is assigned only before the goroutine is created
+	// (by-value arguments of a named function are copies and need nothing)
 	var caps []string
-	allowed := map[string]bool{"d": true, "ctx": true, "out": true, "infinite": true}
+	nCaps := 0
 	for _, mc := range goClosures(d.process) {
-		for _, fv := range mc.Fn.(*ssa.Function).FreeVars {
-			if !allowed[fv.Name()] {
-				caps = append(caps, c.P.FuncName(mc.Fn.(*ssa.Function))+" captures "+fv.Name())
+		for i, fv := range mc.Fn.(*ssa.Function).FreeVars {
+			if i >= len(mc.Bindings) {
+				continue
+			}
+			nCaps++
+			cell, isCell := mc.Bindings[i].(*ssa.Alloc)
+			if !isCell {
+				continue // captured by value
+			}
+			for _, ref := range *cell.Referrers() {
+				st, ok := ref.(*ssa.Store)
+				if !ok || st.Addr != ssa.Value(cell) {
+					continue
+				}
+				// can the assignment still happen once the goroutine exists (within this command)?
+				after := false
+				if st.Block() == mc.Block() {
+					after = instrDominates(mc, st)
+				} else {
+					reach := map[*ssa.BasicBlock]bool{}
+					for _, sc := range mc.Block().Succs {
+						for b2 := range reachableFrom(sc, map[*ssa.BasicBlock]bool{d.loopHead: true}) {
+							reach[b2] = true
+						}
+					}
+					after = reach[st.Block()]
+				}
+				if after {
+					caps = append(caps, fmt.Sprintf("%s shares the variable %s, which is assigned at %s after (or independently of) the goroutine's creation", c.P.FuncName(mc.Fn.(*ssa.Function)), fv.Name(), c.pos(st.Pos())))
+				}
+			}
+			// ... and inside the goroutine it is only read
+			for _, fb := range mc.Fn.(*ssa.Function).Blocks {
+				for _, fi := range fb.Instrs {
+					if st, ok := fi.(*ssa.Store); ok && st.Addr == ssa.Value(fv) {
+						caps = append(caps, fmt.Sprintf("%s assigns the shared variable %s at %s", c.P.FuncName(mc.Fn.(*ssa.Function)), fv.Name(), c.pos(st.Pos())))
+					}
+				}
 			}
 		}
 	}
-	r.Check(len(caps) == 0, "R16-locks", "goroutines started by the command loop capture only d, ctx, out, infinite", c.pos(d.process.Pos()), "", strings.Join(caps, "; "))
+	r.Check(len(caps) == 0, "R16-locks", "goroutines started by the command loop share only variables that are no longer assigned", c.pos(d.process.Pos()), "", strings.Join(caps, "; "))
 }
 
 // c16Random: eval.Random's source is not goroutine-safe and is shared by overlapping searches.
